@@ -36,6 +36,23 @@ def cases(seed, tier):
         base = ["cell", "network", "swc", "swc_net", "branch", "swc", "network", "comp"][k % 8]
         spec = models.random_active(rng, kind={"swc": "cell", "swc_net": "network"}.get(base, base), max_comps=12, T=(5, 10),
                                     homogeneous_net=False)
+        if base == "cell":
+            # a branch with children that is shorter than the longest branch of its level: the custom solvers keep per-branch
+            # bookkeeping (real vs padded compartment counts) that a copy must preserve
+            for _ in range(40):
+                nb = int(rng.integers(3, 6))
+                par, _p = trees.shuffle_topological(rng, trees.random_parents(rng, nb))
+                nc, _pat = trees.random_ncomp(rng, par, pattern="parent_short", nmax=3)
+                if trees.f1_precondition(par, nc) and sum(nc) <= 12:
+                    spec = models.random_active(rng, kind="branch", max_comps=12, T=(5, 10))
+                    n = sum(nc)
+                    spec["struct"] = {"kind": "cell", "cells": [{"parents": [int(p) for p in par], "ncomp": [int(x) for x in nc]}], "pattern": "parent_short", "labelling": "topo"}
+                    spec["ins"] = [{"ch": "HH", "rows": list(range(n))}]
+                    spec["stim"] = [{"rows": [0], "w": [[0.1] * spec["T"]]}]
+                    spec["params"] = {"radius": [float(x) for x in rng.uniform(0.5, 3, n)], "length": [float(x) for x in rng.uniform(5, 30, n)],
+                                      "ra": [float(x) for x in rng.uniform(50, 500, n)], "cm": [float(x) for x in rng.uniform(0.7, 2, n)],
+                                      "v": [float(x) for x in rng.uniform(-75, -55, n)]}
+                    break
         c = {"base": base, "spec": spec, "k": k, "swc": None, "integrate_before": bool(k % 3 == 0), "set_ncomp_before": bool(k % 4 == 1),
              "trainable": bool(k % 2 == 0), "clamp": bool(k % 5 == 1), "view_copy": bool(k % 6 == 2), "ncomp": int(rng.integers(1, 4))}
         if base in ("swc", "swc_net"):
@@ -202,6 +219,8 @@ def run_case(case, rec):
 
     m = rec.call("build", build, case)
     backend = "jax.sparse" if (case["base"] in ("network",) and models.backends_for(case["spec"]) == ["jax.sparse"]) else ["jaxley.stone", "jaxley.thomas", "jax.sparse"][case["k"] % 3]
+    if case["base"] == "cell":
+        backend = ["jaxley.stone", "jaxley.thomas"][(case["k"] // 8) % 2]
     tag = dict(base=case["base"], backend=backend, single_point_soma=bool(case["swc"] and case["swc"]["single_point_soma"]), k=case["k"])
     if case["set_ncomp_before"] and case["base"] in ("cell", "swc") and len(m.comb_parents) > 1:
         # set_ncomp refuses modules with recordings/stimuli/trainables: do it on a clean twin
